@@ -36,6 +36,7 @@ static Plan gen_history(Rng& r, int tier, std::string const& focus)
     GenOpts o;
     o.max_calls = tier ? 2000 : 300;
     o.max_iters = tier ? 8 : 5;
+    o.allow_high_dims = true;
     if (focus == "C07") o.integ = VEGAS;
     if (focus == "C08" || focus == "C09") o.integ = MULTI;
     if (focus == "C17" && r.chance(0.6)) o.integ = MULTI;
@@ -92,11 +93,20 @@ static Plan gen_lattice(Rng& r, int tier, std::string const&)
     p.jexp = static_cast<int>(r.below(41)) - 20;
     if (p.nt == NT_F) p.fmag = static_cast<int>(r.below(5)) - 2;
 
+    static u64 const spectators[] = {8, 17, 18, 22, 38, 146, 150};
+
     if (p.integ == PLAIN)
     {
         p.dims = 1 + r.below(3);
         p.ln = 2 + r.below(p.dims == 3 ? 10 : 30);
         p.variant = 0;
+        if (r.chance(0.05))
+        {
+            // lattice over two dimensions, the others are spectators at their mid point
+            p.variant = 3;
+            p.dims = 2 + r.pick(spectators);
+            p.ln = 2 + r.below(40);
+        }
     }
     else if (p.integ == VEGAS)
     {
@@ -107,9 +117,21 @@ static Plan gen_lattice(Rng& r, int tier, std::string const&)
         u64 const m = 1 + r.below(3);
         p.ln = m * p.bins;
         if (p.dims == 3 && p.ln > 32) p.ln = p.bins;
-        p.variant = r.below(3);   // 0 uniform, 1 user grid, 2 adapted grid
+        p.variant = r.below(3);   // 0 uniform, 1 user grid, 2 adapted grid, 3 high dimensional
         p.grid = (p.variant == 1);
         p.aux.clear();
+        if (r.chance(0.08))
+        {
+            // many dimensions: lattice over the first two, the others are spectators at their mid
+            // point on a uniform grid (products of many bin widths / bin counts leave the exponent
+            // range of the numeric type if they are not formed factor by factor)
+            p.variant = 3;
+            p.dims = 2 + r.pick(spectators);
+            static u64 const hb[] = {128, 128, 64, 16};
+            p.bins = r.pick(hb);
+            p.ln = p.bins;
+            p.grid = r.chance(0.5);
+        }
         if (p.variant == 2)
         {
             // adaptation history: iterations on a peaked integrand before the lattice iteration
@@ -166,7 +188,8 @@ static void exec_lattice(Plan const& p, Report& rep)
     s.fresh();
     ld const eps = eps_of(p.nt);
     ld const exact = script_poly_integral(p, p.dims);
-    u64 const N = ipow(p.ln, p.dims);
+    u64 const active = (p.variant == 3 && p.integ != MULTI) ? 2 : p.dims;
+    u64 const N = ipow(p.ln, active);
     std::string const key = fmt("%s %s", integ_name(p.integ), nt_name(p.nt));
 
     RunCtl ctl = ctl_from_plan(p);
@@ -193,6 +216,7 @@ static void exec_lattice(Plan const& p, Report& rep)
     ctl.lat_n = p.ln;
     ctl.lat_points = N;
     ctl.lat_base = base_pos;
+    ctl.lat_active = active;
 
     std::vector<u64> blocks;   // channel of each lattice block
 
@@ -291,6 +315,7 @@ static void exec_lattice(Plan const& p, Report& rep)
     }
 
     rep.nontrivial = (p.integ != PLAIN);
+    if (p.variant == 3 && p.integ != MULTI) rep.probes["high-dimensional"]++;
     rep.probes[p.integ == VEGAS ? (p.variant == 2 ? "adapted-grid" : p.variant == 1 ? "user-grid" : "uniform-grid")
                                 : p.integ == MULTI ? (p.variant == 77 ? "rational-weights" : "adapted-weights")
                                                    : "plain"]++;
@@ -472,14 +497,22 @@ static Plan gen_grid(Rng& r, int tier, std::string const&)
     GenOpts o;
     o.integ = VEGAS;
     o.allow_dists = false;
+    o.allow_high_dims = true;
     o.max_calls = tier ? 1500 : 300;
     gen_world(r, p, o);
     p.acc = 0;
     p.dists.clear();
     p.bins = r.chance(0.6) ? 2 + r.below(15) : 2 + r.below(199);
+    if (p.dims > 8 && r.chance(0.7)) p.bins = 128;
     u64 const n = 2 + r.below(tier ? 59 : 14);
     p.calls.clear();
     for (u64 i = 0; i != n; ++i) p.calls.push_back(20 + r.below(o.max_calls));
+    if (p.dims > 8)
+    {
+        // many dimensions: keep the run short
+        if (p.calls.size() > 4) p.calls.resize(4);
+        for (auto& c : p.calls) c = 2 + c % 40;
+    }
     static int const fk[] = {F_PEAK, F_PEAK, F_SELECT, F_LADDER, F_SPARSE, F_ZERO, F_POLY};
     p.fk = r.pick(fk);
     p.variant = r.below(4);   // 3: direct probes of vegas_point / refine with hand made data
